@@ -32,7 +32,7 @@ def required_classes(tier):
     out = []
     for cv in CURVES:
         out += ["%s:ref-vs-opt" % cv, "%s:split-product" % cv, "%s:verifier-shape" % cv, "%s:finalexp" % cv]
-    out += ["bls12_381:exp_by_p", "opt:rescaled", "product:identity-factor", "fq12:zero", "fq12:sparse", "fq12:subfield", "fq12:random", "fq12:miller-output"]
+    out += ["same-operands-both-flags", "bls12_381:exp_by_p", "opt:rescaled", "product:identity-factor", "fq12:zero", "fq12:sparse", "fq12:subfield", "fq12:random", "fq12:miller-output"]
     return out
 
 
@@ -126,9 +126,21 @@ def run(rec):
             acc_model = F12.one
             prod_full = F12.one
             ok = True
-            for Q, Pt in pairs:
-                s1, m = call(po.pairing, Lo(Q, 2), Lo(Pt, 1), final_exponentiate=False)
-                s2, f = call(po.pairing, Lo(Q, 2), Lo(Pt, 1))
+            for t_, (Q, Pt) in enumerate(pairs):
+                if (j + t_) % 2:
+                    # the very same operand objects with both values of the flag, in both orders (a verifier that also
+                    # wants the individual pairing does exactly this)
+                    q_, p_ = Lo(Q, 2), Lo(Pt, 1)
+                    rec.case("same-operands-both-flags", None, nontrivial=False)
+                    if (j + t_) % 4 == 1:
+                        s1, m = call(po.pairing, q_, p_, final_exponentiate=False)
+                        s2, f = call(po.pairing, q_, p_)
+                    else:
+                        s2, f = call(po.pairing, q_, p_)
+                        s1, m = call(po.pairing, q_, p_, final_exponentiate=False)
+                else:
+                    s1, m = call(po.pairing, Lo(Q, 2), Lo(Pt, 1), final_exponentiate=False)
+                    s2, f = call(po.pairing, Lo(Q, 2), Lo(Pt, 1))
                 if s1 != "ok" or s2 != "ok":
                     ok = False
                     chk("B-c12.split", False, "split", "pairing raised: %r %r" % (m, f))
